@@ -5,6 +5,9 @@
 #include "vx_alloc.hpp"
 #include <sys/wait.h>
 #include <sys/mman.h>
+#include <sys/prctl.h>
+#include <signal.h>
+#include <errno.h>
 #include <time.h>
 
 namespace sx {
@@ -38,9 +41,9 @@ inline bool out_of_time() { if (now() - g_t0 > g_deadline) { g_capped = true; re
 template <typename F> inline int parallel(F fn) {
 	if (g_W == 1) { g_w = 0; fn(0, 1); return 0; }
 	pid_t pids[256]; fflush(nullptr);
-	for (int w = 0; w < g_W; ++w) { pid_t p = fork(); if (p == 0) { g_w = w; fn(w, g_W); if (g_capped) snprintf(me().inflight, sizeof me().inflight, "CAPPED"); fflush(nullptr); _exit(0); } pids[w] = p; }
+	for (int w = 0; w < g_W; ++w) { pid_t p = fork(); if (p == 0) { prctl(PR_SET_PDEATHSIG, SIGKILL); g_w = w; fn(w, g_W); if (g_capped) snprintf(me().inflight, sizeof me().inflight, "CAPPED"); fflush(nullptr); _exit(0); } pids[w] = p; }
 	int crashed = 0;
-	for (int w = 0; w < g_W; ++w) { int st = 0; waitpid(pids[w], &st, 0); if (!WIFEXITED(st) || WEXITSTATUS(st)) { ++crashed; Shared& s = g_sh[w]; ++s.bad; if (s.nfirst < 8) snprintf(s.first[s.nfirst++], sizeof s.first[0], "crash\t%s\tworker %d terminated abnormally (status 0x%x)", s.inflight, w, st); } else if (!strcmp(g_sh[w].inflight, "CAPPED")) g_capped = true; }
+	for (int w = 0; w < g_W; ++w) { int st = 0; while (waitpid(pids[w], &st, 0) < 0 && errno == EINTR) {} if (!WIFEXITED(st) || WEXITSTATUS(st)) { ++crashed; Shared& s = g_sh[w]; ++s.bad; if (s.nfirst < 8) snprintf(s.first[s.nfirst++], sizeof s.first[0], "crash\t%s\tworker %d terminated abnormally (status 0x%x)", s.inflight, w, st); } else if (!strcmp(g_sh[w].inflight, "CAPPED")) g_capped = true; }
 	return crashed;
 }
 
